@@ -186,10 +186,15 @@ Next ==
   /\ LET e == Rec[l]
          t0 == IF e.first THEN <<>> ELSE tbl
          b0 == IF e.first THEN <<>> ELSE base IN
-     /\ fl' = IF e.grp = "c10" THEN C10Failed(e, t0) ELSE C16Failed(e, b0)
+     /\ fl' = (IF e.grp = "c10" THEN C10Failed(e, t0) ELSE IF e.grp = "hist" THEN {c \in {"C10.no_panic"} : e.out.tag = "panic"}
+               ELSE C16Failed(e, b0))
+              \* the same request on a fresh thread gives the same answer (no dependence on the calls made before)
+              \cup {c \in {IF e.grp \in {"c10", "hist"} THEN "C10.history_independent" ELSE "C16.history_independent"} :
+                      "out_fresh" \in DOMAIN e /\ e.out # e.out_fresh}
      /\ (fl' # {}) => PrintT("BAD " \o ToJson([id |-> e.id, failed |-> fl']))
      /\ nbad' = nbad + (IF fl' = {} THEN 0 ELSE 1)
-     /\ cov' = Bump(cov, IF e.grp = "c10" THEN C10Clauses(e, t0) ELSE C16Clauses(e, b0))
+     /\ cov' = Bump(cov, (IF e.grp = "c10" THEN C10Clauses(e, t0) ELSE IF e.grp = "hist" THEN {"C10.no_panic", "C10.history." \o e.op} ELSE C16Clauses(e, b0))
+                          \cup (IF "out_fresh" \in DOMAIN e THEN {IF e.grp \in {"c10", "hist"} THEN "C10.history_independent" ELSE "C16.history_independent"} ELSE {}))
      /\ tbl' = IF e.grp = "c10" /\ OkIv(e) /\ FiniteOK(e) THEN (<<e.conf.kind, e.li>> :> Bnd(e)) @@ t0 ELSE t0
      /\ base' = IF e.grp = "c16" /\ e.first THEN e ELSE b0
   /\ l' = l + 1
